@@ -211,7 +211,12 @@ class CaseGen:
                 if bits[k % nbits] == '1': kept += t[bs[k]:bs[k + 1]]
             s.text = kept
         elif c == 'reserve':
-            n = r.pick([0, 1, 2, max(0, 16 - L), max(0, 17 - L), 8, 30, 100]) if not (self.p.get('big_sizes') and r.chance(1, 3)) else r.pick(SIZES_BIG + [(x - L) & MASK for x in SIZES_BIG[-20:]])
+            if self.p.get('big_sizes') and r.chance(1, 3):
+                # the interesting region: len + additional just below / at the 56-bit limit, isize::MAX and usize::MAX
+                edge = r.pick([(1 << 56) - 1, 1 << 56, (1 << 63) - 1, (1 << 63) - 8, (1 << 64) - 1, (1 << 64) - 16, (1 << 64) - 17])
+                n = r.pick(SIZES_BIG + [(edge - L - k) & MASK for k in (0, 1, 2, 7, 8, 15, 16)] + [(edge - L + 1) & MASK])
+            else:
+                n = r.pick([0, 1, 2, max(0, 16 - L), max(0, 17 - L), 8, 30, 100])
             self.emit(self.mode(), 'reserve', i, n)
         elif c == 'shrink_to':
             n = r.pick([0, L, L + 1, max(0, L - 1), 16, 17, L + L // 2, L + L // 2 + 1, 2 * L, 100]) if not (self.p.get('big_sizes') and r.chance(1, 6)) else r.pick(SIZES_BIG)
